@@ -1,6 +1,6 @@
 import G3D.Proofs.Distance
 import G3D.Proofs.Collinear
-import G3D.Extracted.Dispatch
+import G3D.Extracted.Dispdist
 /-! # C10 — distance is the exact Euclidean distance, symmetric and total on the documented pairs
     `distSqGeo` is the square of what `distance` returns (through the same auxiliary plane / line
     constructions as the code); `IsMinDistSq d2 A B` says that `d2` is attained and is a lower bound of
